@@ -183,9 +183,13 @@ def _items_gen(pat: Term, it: Term):
 
 
 def _keys(it: Term) -> Term:
-    """iterating d.keys() is iterating d; iterating {k: v for k in S} is iterating S"""
+    """iterating d.keys() is iterating d; iterating {k: v for k in S} is iterating S; a progress bar around S is S"""
     if it[0] == "meth" and it[2] == "keys" and not it[3] and not it[4]:
         return _keys(it[1])
+    if it[0] == "call" and isinstance(it[1], str) and it[1].split(".")[-1] == "tqdm" and it[2]:
+        return _keys(it[2][0])
+    if it[0] == "call" and it[1] == "tqdm" and dict(it[3]).get("iterable") is not None:
+        return _keys(dict(it[3])["iterable"])
     if it[0] == "comp" and it[1] == "dict" and len(it[3]) == 1 and it[2][0] == "kv" and it[2][1] == it[3][0][0] and it[3][0][0][0] == "var" and not it[3][0][2]:
         return it[3][0][1]
     return it
@@ -221,8 +225,32 @@ def subterms_of(t: Any):
             yield from subterms_of(x)
 
 
+def _split_witness_gens(gens: list) -> list:
+    """A generator whose filters contain "some element p of S (the first one the search stopped at) ..." is followed by one more generator:
+    p ranges over firsthit(S), with the filters that came after it."""
+    out = []
+    for pat, it, conds in gens:
+        cur = [pat, it, []]
+        for c in conds:
+            if c[0] == "iter-elem":
+                out.append((cur[0], cur[1], tuple(cur[2])))
+                cur = [c[1], ("firsthit", c[2]), []]
+            else:
+                cur[2].append(c)
+        out.append((cur[0], cur[1], tuple(cur[2])))
+    return out
+
+
 def _norm_items_term(t: Any) -> Any:
     def f(s_: Term):
+        if s_[0] == "comp" and len(s_) > 3 and any(c[0] == "iter-elem" for g in s_[3] for c in g[2]):
+            s_ = ("comp", s_[1], s_[2], tuple(_split_witness_gens(list(s_[3]))))
+        if s_[0] == "accum" and len(s_) > 5 and any(c[0] == "iter-elem" for g in s_[4] for c in g[2]):
+            s_ = ("accum", s_[1], s_[2], s_[3], tuple(_split_witness_gens(list(s_[4]))), s_[5])
+        r = f0(s_)
+        return s_ if r is None else r
+
+    def f0(s_: Term):
         if s_[0] == "comp" and len(s_) > 3:
             s0_ = s_
             s_ = ("comp", s_[1], s_[2], tuple(_drop_enumerate(list(s_[3]), s_[2])))
@@ -269,7 +297,51 @@ def _norm_items_term(t: Any) -> Any:
         if s_[0] == "iter-elem" and _keys(s_[2]) != s_[2]:
             return ("iter-elem", s_[1], _keys(s_[2]))
         return None
-    return mapterm(t, f)
+
+    def f_outer(s_: Term):
+        r = f(s_)
+        return r
+    return mapterm(t, f_outer)
+
+
+def lam_refs(paths: list, model: Model, mk_ev) -> list:
+    """A small pure routine passed as a VALUE (key=..., policy=...) is the function it computes: its reference is replaced by the lambda
+    term of its single return path, so that a named key function and the same function written in place compare equal."""
+    from dataclasses import replace
+
+    cache: dict = {}
+
+    def lam_of(q: str):
+        if q in cache:
+            return cache[q]
+        cache[q] = None
+        r = model.functions.get(q)
+        if r is None or r.is_generator or r.cls is not None:
+            return None
+        a = r.node.args
+        params = [x.arg for x in a.posonlyargs + a.args]
+        if a.kwonlyargs or a.vararg or a.kwarg or not 1 <= len(params) <= 3:
+            return None
+        try:
+            ev = mk_ev()
+            vs = {p_: ("var", f"%lam_{i}") for i, p_ in enumerate(params)}
+            ps = [p_ for p_ in ev.run(r, vs) if p_.kind == "return"]
+        except Exception:  # noqa: BLE001
+            return None
+        if len(ps) != 1 or ps[0].conds or has_unknown(ps[0].value):
+            return None
+        cache[q] = ("lam", tuple(vs[p_] for p_ in params), ps[0].value)
+        return cache[q]
+
+    def fn(s_):
+        if s_[0] == "ref" and isinstance(s_[1], str):
+            return lam_of(s_[1])
+        return None
+
+    out = []
+    for p in paths:
+        out.append(replace(p, conds=tuple(mapterm(c, fn) for c in p.conds), value=mapterm(p.value, fn) if p.kind == "return" else p.value))
+    return out
 
 
 def normalise_items(paths: list) -> list:
@@ -538,6 +610,9 @@ def evaluate(model: Model, qname: str, mk_ev: Callable[[], Evaluator], types: di
     ev.recurse_as = set(recurse_as)
     args = {}
     for k, t in types.items():
+        if isinstance(t, tuple) and len(t) == 2 and t[0] == "const":
+            args[k] = t  # partial evaluation: this parameter is fixed to a constant
+            continue
         v = ("var", k)
         ev.set_type(v, t)
         args[k] = v
@@ -564,6 +639,7 @@ def compare_with_reference(model: Model, impl_q: str, ref_q: str, types: dict[st
         from .symeval import bool_paths
         pi, pr = bool_paths(pi), bool_paths(pr)
     from .symeval import resolve_ites
+    pi, pr = lam_refs(pi, model, mk_ev), lam_refs(pr, model, mk_ev)
     pi, pr = normalise_items(pi), normalise_items(pr)
     pi, pr = resolve_ites(pi), resolve_ites(pr)
     pi, pr = expand_quantifiers(pi, ev_i), expand_quantifiers(pr, ev_r)
